@@ -6,7 +6,7 @@ package c02
 //	key <L|N> <addr> <network> <host> <port>     (hex; "$D" in addr/host stands for the private directory)
 //
 // network/host/port are what the real caddy.SplitNetworkAddress returned for addr when the line was
-// generated (net.SplitHostPort is a parameter of the model). With L the harness really listens on the
+// generated; the driver checks the byte-level model of the splitter (C13/Listen.lean) against them. With L the harness really listens on the
 // first socket, reads the key off listenerPool/unixSockets and asks caddy.ListenerUsage the way the
 // HTTP app's Stop does (network, JoinHostPort(0) of the expanded address; the call site is pinned by
 // Gen.listenerUsageCalls / Props.usage_key_expression_matches_source).
@@ -96,6 +96,8 @@ var keyAddrs = []string{
 	"unix//run/x.sock", "unix//run/x.sock|0660", "unix//run/x.sock|0440", "unix//run/x.sock|abc", "unix//run/a|b|0600", "unixgram//run/g.sock|0222",
 	"fd/3", "fdgram/4", "h:90-80", "h:70000", "h:-5", "h:8-", "h:+8", "TCP/h:1", " tcp /h:1", "tcp/h:0", "h:65535-65535", "unix/@abstract|0600",
 	"udp/[fe80::1%eth0]:7", "h:08", "unix//p|0200", "unix//p|0177", "unix//p|", "unix//p|08", "quic/h:1",
+	"h%1:80", "[::1]", "::1", "[::1]:", "[fe80::1%eth0]:1-2", "a:b:c", "[h]:1", "h]:1", "tcp/[::]:0-1", "[::1]:80:90", "tcp/", "/h:1", "udp6/[::]:53",
+	"fe80::1%eth0", "tcp/h", "h:", ":", "", "[]:1", "[[::1]]:1", "unixpacket//p|0700", "FD/5", "fdx/h:1",
 }
 
 func (p *prop) genKeys(rng *core.Rand, emit func(string)) {
